@@ -1,5 +1,5 @@
 ---------------------------- MODULE ValueSemCases ----------------------------
-(* Judge for C08.  Case: [n, proj |-> <<payload trees>>, eq |-> n x n matrix of the real ==, h |-> hash class per
+(* Judge for C08.  Case: [n, twins |-> <<pairs of indices built from the same parameters>>, proj |-> <<payload trees>>, eq |-> n x n matrix of the real ==, h |-> hash class per
    attribute (equal numbers = equal hash() values)]; one mismatch record per failing law and pair. *)
 EXTENDS ValueSem, Json, IOUtils, TLC
 
@@ -14,6 +14,8 @@ CheckCase(k) ==
   /\ \A a, b \in 1 .. n : (SamePayload(c.proj[a], c.proj[b]) => c.eq[a][b] = 1) \/ Report(k, "SameParametersEqual", a, b)
   /\ \A a, b \in 1 .. n : (~SamePayload(c.proj[a], c.proj[b]) => c.eq[a][b] = 0) \/ Report(k, "DifferentPayloadsUnequal", a, b)
   /\ \A a, b \in 1 .. n : (\A m \in 1 .. n : (c.eq[a][m] = 1 /\ c.eq[m][b] = 1) => c.eq[a][b] = 1) \/ Report(k, "Transitive", a, b)
+  \* pairs the harness built from the same constructor arguments (possibly through different constructor paths) / parsed from the same text
+  /\ \A p \in DOMAIN c.twins : c.eq[c.twins[p][1]][c.twins[p][2]] = 1 \/ Report(k, "BuiltFromTheSameParametersEqual", c.twins[p][1], c.twins[p][2])
 Init == i = 0
 Next == i < Len(Cases) /\ i' = i + 1 /\ CheckCase(i + 1)
 Spec == Init /\ [][Next]_i
